@@ -193,7 +193,7 @@ def finding_key(p, e, o, m) -> Optional[str]:
     ext = {i + 1 for i, c in enumerate(p["comps"]) if c.get("ext")}
     insts = [(tuple(path), c) for path, c in e["insts"] if c in ext]
     # the default alias of a fill used inside a {% block %} override that sits in that fill (open finding)
-    if m["what"] == "tokens" and p["mode"] == "django" and _defref_in_block(p):
+    if m["what"] == "tokens" and _defref_in_block(p):
         return "default-alias-inside-block-override:default-content-not-rendered"
     # (the three shapes below were repaired - KNOWN_FINDINGS.txt lists them as `fixed:` - so these keys excuse
     #  nothing any more; they only label a violation should the defect return)
